@@ -237,6 +237,22 @@ func vfZmodemCase(c *vfCtx, plan vfZmPlan) {
 		c.Viol("c19-no-cancel-to-server", "plan %+v: the session ended (helper started=%v) but the remote side was not sent the cancel sequence; it received %q", plan, helperStarted, vfHead(toServer, 80))
 		return
 	}
+	// (1b) in half of the cases the user types first - a letter, then Ctrl-C - while the remote side is still silent
+	if len(c.ID)%2 == 0 || strings.Contains(c.ID, "quiet") {
+		iB := rig.siSink.Len()
+		rig.clientIn.WriteAtomic([]byte("a"))
+		time.Sleep(30 * time.Millisecond)
+		rig.clientIn.WriteAtomic([]byte{0x03})
+		want := []byte("a\x03")
+		for dl := time.Now().Add(3 * time.Second); !bytes.Contains(rig.siSink.Bytes()[iB:], want) && time.Now().Before(dl); {
+			time.Sleep(5 * time.Millisecond)
+		}
+		if got := rig.siSink.Bytes()[iB:]; !bytes.Contains(got, want) {
+			c.Viol("c19-input-blocked-before-output:"+plan.Helper+":"+plan.Server, "plan %+v: the session ended and the remote side has been quiet for 1.5 s; typed \"a\" and Ctrl-C reached the remote side as %q", plan, vfHead(got, 40))
+			return
+		}
+		c.Obs("typed_first_probes", 1)
+	}
 	probe := []byte(fmt.Sprintf("PROBE-%s-after-zmodem\r\n", c.ID))
 	oBefore := rig.clientOut.Len()
 	rig.serverOut.WriteAtomic(probe)
